@@ -205,7 +205,7 @@ Proof. intros I P h h' Hh Hh'. apply P; auto. Qed.
 Definition e4_grant (th : thread) : thread :=
   {| t_req := t_req th; t_pc := t_pc th; t_postings := t_postings th; t_unb := t_unb th;
      t_view := t_view th; t_entry := t_entry th; t_txid := t_txid th; t_granted := true;
-     t_resp := t_resp th; t_gen := t_gen th |}.
+     t_resp := t_resp th; t_gen := t_gen th; t_cancelled := t_cancelled th |}.
 
 (* the FIFO pass: the table stays pairwise compatible and only grows; a thread is left alone or gets the
    grant flag together with its entry in the table *)
